@@ -20,7 +20,12 @@ pub struct StepCase {
 /// leaf additionally everything the property says about the wiped key.
 pub fn check_step(c: &StepCase) -> Verdict {
     let n = c.hash.n();
-    let seed = gen::expand(0xc05 ^ c.levels.len() as u64, n);
+    // some (hash, shape) combinations run their whole lifetime on an all-zero / all-ones seed
+    let seed = match (c.hash.index() + c.levels.len() + c.levels[0].1 as usize) % 5 {
+        0 => vec![0u8; n],
+        1 => vec![0xffu8; n],
+        _ => gen::expand(0xc05 ^ c.levels.len() as u64, n),
+    };
     let total: u128 = hss::total_leaves(&c.levels);
     let blob = hss::private_key_blob(&c.levels, c.counter, &seed);
     let last = (c.counter as u128) + 1 == total;
